@@ -135,12 +135,9 @@ extern "C" int harness_main() {
     if (b_only_tick_inside) verif_reach("b_ticks_alone");
     if (g_n[0] >= 1) verif_reach("active_use_ticked");
     verif_log("nodes", (std::int64_t)nodes);
-    // These two assertions fail on the unchanged tree (known finding P1).  `tolerate` is a free symbolic bool: the failure is
-    // reported with tolerate = 0 (and replays natively), while the path itself continues with tolerate = 1 so that the
-    // sampled-path differential of bin/check never compares a trace that was cut at a concretely failing assertion.
-    verif_assert((ok[0] & ok[1]) | verif_sbool("tolerate"), "C06.passive_variant_not_merged_or_behaviour_preserved");
+    verif_assert(ok[0] & ok[1], "C06.passive_variant_not_merged_or_behaviour_preserved");
     // A, B, two Sum2 (differing in input activity), two recorders
-    verif_assert((nodes == 6) | verif_sbool("tolerate"), "C06.passive_variant_stays_distinct");
+    verif_assert(nodes == 6, "C06.passive_variant_stays_distinct");
     verif_reach("end");
     return 0;
 }
